@@ -7,3 +7,21 @@ import "github.com/hknutzen/Netspoc-Approve/go/pkg/cisco"
 func VerifIOSACL() { cisco.VerifIOSACL(cmdInfo) }
 
 func VerifMergeACL() { cisco.VerifMergeACL(cmdInfo, "IOS") }
+
+func VerifRoutesIOS() {
+	cisco.VerifRoutes(cisco.VerifRouteAPI{Model: "IOS", Changes: func(device, target string) ([]string, error) {
+		s := Setup()
+		c1, err := s.ParseConfig([]byte(device), "<device>")
+		if err != nil {
+			return nil, err
+		}
+		c2, err := s.ParseConfig([]byte(target), "router")
+		if err != nil {
+			return nil, err
+		}
+		if err := s.GetChanges(c1, c2); err != nil {
+			return nil, err
+		}
+		return s.Changes, nil
+	}})
+}
